@@ -741,7 +741,7 @@ fn raw_strategy() -> impl Strategy<Value = RawCase> {
 pub fn run(ctx: &Ctx) -> Report {
     let mut rep = Report::new(
         "exploration",
-        "(1) valid databases from the independent encoder with 0..3 format-level corruption operators: any cell of any catalog or user table replaced (null, all ones, dangling reference, other string, raw zero pattern, high bit), stream bytes overwritten, streams truncated / extended / emptied / removed / replaced by a storage of the same name / renamed to raw names spelled with code units at the boundaries of the name-packing ranges, pool header (unknown code page, flipped reference width), pool entries (length beyond the data, long-string escape, zero refcount with text, under-count, live empty entry, maximal refcount), property set (BOM, version, OS, reserved, FMTID, section offset, count, misaligned / out-of-bounds offsets, unknown type, LPSTR length huge / 0 / unterminated, string contents a lone or unbalanced brace / non-UTF-8 bytes / empty, FILETIME beyond year 9999, code page of wrong type / unknown id, section size 0, duplicate id), wrong root CLSID; (2) arbitrary bytes and byte-level edits / truncations of valid files. On each the battery runs: Package::open; if Ok every read operation (tables, columns, select and full iteration with Row indexing, inner and left joins of small tables, summary getters, stream listing and reading, signature query) and every mutating operation (insert / update / delete on every table with schema-derived values, create and drop table, stream write / remove, summary setters, code-page changes) followed by flush. Oracle: every call returns; panics (with location), more than a size-proportional budget of I/O calls, and a single allocation above 64 MiB + 16 x file size are violations. Non-trivial = the file passes the container layer (reaches MSI-level parsing); distinct by file hash. The thorough tier adds libFuzzer campaigns (fuzz/) and the FFI worker.",
+        "(1) valid databases from the independent encoder with 0..3 format-level corruption operators: any cell of any catalog or user table replaced (null, all ones, dangling reference, other string, raw zero pattern, high bit), stream bytes overwritten, streams truncated / extended / emptied / removed / replaced by a storage of the same name / renamed to raw names spelled with code units at the boundaries of the name-packing ranges, pool header (unknown code page, flipped reference width), pool entries (length beyond the data, long-string escape, zero refcount with text, under-count, live empty entry, maximal refcount), property set (BOM, version, OS, reserved, FMTID, section offset, count, misaligned / out-of-bounds offsets, unknown type, LPSTR length huge / 0 / unterminated, string contents a lone or unbalanced brace / non-UTF-8 bytes / empty, FILETIME beyond year 9999, code page of wrong type / unknown id, section size 0, duplicate id), wrong root CLSID; (2) arbitrary bytes and byte-level edits / truncations of valid files. On each the battery runs: Package::open; if Ok every read operation (tables, columns, select and full iteration with Row indexing, inner and left joins of small tables, summary getters, stream listing and reading, signature query) and every mutating operation (insert / update / delete on every table with schema-derived values, create and drop table, stream write / remove, summary setters, code-page changes) followed by flush. Oracle: every call returns; panics (with location), more than a size-proportional budget of I/O calls (20 million + 40,000 per 512 bytes of input), and a single allocation above 64 MiB + 16 x file size are violations. Non-trivial = the file passes the container layer (reaches MSI-level parsing); distinct by file hash. The thorough tier adds libFuzzer campaigns (fuzz/) and the FFI worker.",
     );
     rep.assumptions.push("a pure CPU loop would surface as a watchdog exit 2, not as a violation".into());
     let mut st = Stats::new();
